@@ -483,3 +483,153 @@ func okUpdate[K comparable, V any](d *Linked[K, V], a, b, c, x node.Node[K, V], 
 //@   requires i < m
 //@   modifies *
 //@   ensures [bounded:update-transplants-in-place] okUpdate(result, a, b, c, x, m, i)
+
+// ---------------------------------------------------------------------------------------------
+// Unbounded proofs of the list's pointer code (lists of every length, both link families). The real methods are
+// executed (`bodies`: the assumed contracts above are switched off) from an arbitrary heap in which the list's ends
+// and the nodes the operation touches are consistently linked. The postconditions give the exact new links, ends and
+// length, and say that every other node (an arbitrary mstar) keeps its links and its consistency.
+// What the local preconditions cannot carry from one operation to the next is that len counts the linked nodes
+// (lenCounts / "at least two members" below): that part of A-deque stays with the bounded stand-ins above, as does the
+// meaning of the abstract relation ghost_inDeque.
+// ---------------------------------------------------------------------------------------------
+
+// dqOK(d, m): the neighbours of m (in d's link family) point back at m
+func dqOK[K comparable, V any](d *Linked[K, V], m node.Node[K, V]) bool {
+	a, b := nx(d, m), pv(d, m)
+	return (a == nil || pv(d, a) == m) && (b == nil || nx(d, b) == m)
+}
+
+// endsOK(d): head and tail are both nil or both set, they are the open ends, the length is sane
+func endsOK[K comparable, V any](d *Linked[K, V]) bool {
+	return (d.head == nil) == (d.tail == nil) && (d.head == nil || pv(d, d.head) == nil) && (d.tail == nil || nx(d, d.tail) == nil) &&
+		d.len >= 0 && d.len < 1<<40
+}
+
+// lenCounts(d): the part of "len is the number of linked nodes" that the operations branch on
+func lenCounts[K comparable, V any](d *Linked[K, V]) bool {
+	return (d.len == 0) == (d.head == nil) && (d.len == 1) == (d.head != nil && d.head == d.tail)
+}
+
+// inThis(d, n): the open ends of n are the ends of d (n is linked into d, not into another list of the family)
+func inThis[K comparable, V any](d *Linked[K, V], n node.Node[K, V]) bool {
+	return (pv(d, n) != nil || d.head == n) && (nx(d, n) != nil || d.tail == n)
+}
+
+// nbOK(d, n): n and its two neighbours are consistently linked, n is not its own neighbour
+func nbOK[K comparable, V any](d *Linked[K, V], n node.Node[K, V]) bool {
+	return dqOK(d, n) && nx(d, n) != n && pv(d, n) != n && (nx(d, n) == nil || dqOK(d, nx(d, n))) && (pv(d, n) == nil || dqOK(d, pv(d, n)))
+}
+
+// unlinked(d, n): n has no links and is neither end of d
+func unlinked[K comparable, V any](d *Linked[K, V], n node.Node[K, V]) bool {
+	return free(d, n) && d.head != n && d.tail != n
+}
+
+func sameLinks[K comparable, V any](d *Linked[K, V], m, a, b node.Node[K, V]) bool {
+	return nx(d, m) == a && pv(d, m) == b
+}
+
+func pPushBack[K comparable, V any](d *Linked[K, V], n node.Node[K, V])        { d.PushBack(n) }
+func pPushFront[K comparable, V any](d *Linked[K, V], n node.Node[K, V])       { d.PushFront(n) }
+func pDeleteNode[K comparable, V any](d *Linked[K, V], n node.Node[K, V])      { d.Delete(n) }
+func pPopFrontNode[K comparable, V any](d *Linked[K, V]) node.Node[K, V]       { return d.PopFront() }
+func pMoveToFront[K comparable, V any](d *Linked[K, V], n node.Node[K, V])     { d.MoveToFront(n) }
+func pMoveToBack[K comparable, V any](d *Linked[K, V], n node.Node[K, V])      { d.MoveToBack(n) }
+func pUpdateNode[K comparable, V any](d *Linked[K, V], n, old node.Node[K, V]) { d.UpdateNode(n, old) }
+func pContains[K comparable, V any](d *Linked[K, V], n node.Node[K, V]) bool   { return d.Contains(n) }
+
+//@ macro PLINKS = node::prev, node::next, node::prevExp, node::nextExp, d.head, d.tail, d.len
+//@ macro PPRE = ghost_hasSize() && ghost_hasExpLinks() && d != nil && n != nil && mstar != nil && endsOK(d)
+
+//@ func pPushBack : C04 C05 C07
+//@   bodies
+//@   var mstar node.Node[K, V]
+//@   requires $PPRE && lenCounts(d) && unlinked(d, n) && d.len < 1<<40-1
+//@   requires [tail-consistent] d.tail == nil || dqOK(d, d.tail)
+//@   modifies $PLINKS
+//@   ensures [C05:appended-at-the-tail] d.tail == n && nx(d, n) == nil && pv(d, n) == pre(d.tail) && (pre(d.tail) == nil || nx(d, pre(d.tail)) == n) && d.len == pre(d.len)+1
+//@   ensures [C05:head-kept-unless-empty] (pre(d.head) == nil ==> d.head == n) && (pre(d.head) != nil ==> d.head == pre(d.head))
+//@   ensures [C05:list-stays-well-formed] endsOK(d) && dqOK(d, n) && inThis(d, n) && (d.len == 0) == (d.head == nil)
+//@   ensures [C05:every-other-node-stays-consistently-linked] mstar != n && pre(dqOK(d, mstar)) ==> dqOK(d, mstar)
+//@   ensures [C05:no-other-node-is-touched] mstar != n && mstar != pre(d.tail) ==> sameLinks(d, mstar, pre(nx(d, mstar)), pre(pv(d, mstar)))
+
+//@ func pPushFront : C04 C05 C07
+//@   bodies
+//@   var mstar node.Node[K, V]
+//@   requires $PPRE && lenCounts(d) && unlinked(d, n) && d.len < 1<<40-1
+//@   requires [head-consistent] d.head == nil || dqOK(d, d.head)
+//@   modifies $PLINKS
+//@   ensures [C05:prepended-at-the-head] d.head == n && pv(d, n) == nil && nx(d, n) == pre(d.head) && (pre(d.head) == nil || pv(d, pre(d.head)) == n) && d.len == pre(d.len)+1
+//@   ensures [C05:tail-kept-unless-empty] (pre(d.tail) == nil ==> d.tail == n) && (pre(d.tail) != nil ==> d.tail == pre(d.tail))
+//@   ensures [C05:list-stays-well-formed] endsOK(d) && dqOK(d, n) && inThis(d, n) && (d.len == 0) == (d.head == nil)
+//@   ensures [C05:every-other-node-stays-consistently-linked] mstar != n && pre(dqOK(d, mstar)) ==> dqOK(d, mstar)
+//@   ensures [C05:no-other-node-is-touched] mstar != n && mstar != pre(d.head) ==> sameLinks(d, mstar, pre(nx(d, mstar)), pre(pv(d, mstar)))
+
+//@ func pDeleteNode : C04 C05 C07
+//@   bodies
+//@   var mstar node.Node[K, V]
+//@   requires $PPRE && nbOK(d, n)
+//@   requires [linked-here-or-not-at-all] unlinked(d, n) || (inThis(d, n) && d.len >= 1)
+//@   modifies $PLINKS
+//@   ensures [C05:unlinked] free(d, n) && d.head != n && d.tail != n
+//@   ensures [C05:neighbours-are-joined] (pre(pv(d, n)) == nil || nx(d, pre(pv(d, n))) == pre(nx(d, n))) && (pre(nx(d, n)) == nil || pv(d, pre(nx(d, n))) == pre(pv(d, n)))
+//@   ensures [C05:ends-follow] pre(inThis(d, n)) ==> d.len == pre(d.len)-1 && (pre(pv(d, n)) == nil ==> d.head == pre(nx(d, n))) && (pre(pv(d, n)) != nil ==> d.head == pre(d.head)) && (pre(nx(d, n)) == nil ==> d.tail == pre(pv(d, n))) && (pre(nx(d, n)) != nil ==> d.tail == pre(d.tail))
+//@   ensures [C05:deleting-an-unlinked-node-changes-nothing] pre(unlinked(d, n)) ==> d.len == pre(d.len) && d.head == pre(d.head) && d.tail == pre(d.tail) && sameLinks(d, mstar, pre(nx(d, mstar)), pre(pv(d, mstar)))
+//@   ensures [C05:list-stays-well-formed] endsOK(d)
+//@   ensures [C05:every-other-node-stays-consistently-linked] mstar != n && pre(dqOK(d, mstar)) ==> dqOK(d, mstar)
+//@   ensures [C05:no-other-node-is-touched] mstar != n && mstar != pre(pv(d, n)) && mstar != pre(nx(d, n)) ==> sameLinks(d, mstar, pre(nx(d, mstar)), pre(pv(d, mstar)))
+
+//@ func pPopFrontNode : C04 C05 C07
+//@   bodies
+//@   var mstar node.Node[K, V]
+//@   requires ghost_hasSize() && ghost_hasExpLinks() && d != nil && mstar != nil && endsOK(d) && lenCounts(d)
+//@   requires [head-consistent] d.head == nil || (nbOK(d, d.head) && inThis(d, d.head))
+//@   modifies $PLINKS
+//@   ensures [C05:pops-the-head] result == pre(d.head) && (result != nil ==> free(d, result) && d.head == pre(nx(d, d.head)) && d.len == pre(d.len)-1 && d.head != result)
+//@   ensures [C05:empty-list-pops-nothing] pre(d.head) == nil ==> result == nil && d.len == pre(d.len) && d.head == nil
+//@   ensures [C05:list-stays-well-formed] endsOK(d)
+//@   ensures [C05:every-other-node-stays-consistently-linked] mstar != pre(d.head) && pre(dqOK(d, mstar)) ==> dqOK(d, mstar)
+
+//@ func pMoveToFront : C04 C05 C07
+//@   bodies
+//@   var mstar node.Node[K, V]
+//@   requires $PPRE && nbOK(d, n) && inThis(d, n) && lenCounts(d)
+//@   requires [len-counts-the-members] n != d.head ==> d.len >= 2
+//@   requires [head-consistent] d.head == nil || dqOK(d, d.head)
+//@   modifies $PLINKS
+//@   ensures [C05:moved-to-the-head] d.head == n && pv(d, n) == nil && d.len == pre(d.len) && (pre(d.head) != n ==> nx(d, n) == pre(d.head) && pv(d, pre(d.head)) == n)
+//@   ensures [C05:the-gap-is-closed] pre(d.head) != n ==> nx(d, pre(pv(d, n))) == pre(nx(d, n)) && (pre(nx(d, n)) == nil || pv(d, pre(nx(d, n))) == pre(pv(d, n)))
+//@   ensures [C04:tail-follows-when-the-last-node-moves] pre(d.head) != n ==> (pre(d.tail) == n ==> d.tail == pre(pv(d, n))) && (pre(d.tail) != n ==> d.tail == pre(d.tail))
+//@   ensures [C05:list-stays-well-formed] endsOK(d) && dqOK(d, n) && inThis(d, n)
+//@   ensures [C05:every-other-node-stays-consistently-linked] mstar != n && pre(dqOK(d, mstar)) ==> dqOK(d, mstar)
+
+//@ func pMoveToBack : C04 C05 C07
+//@   bodies
+//@   var mstar node.Node[K, V]
+//@   requires $PPRE && nbOK(d, n) && inThis(d, n) && lenCounts(d)
+//@   requires [len-counts-the-members] n != d.tail ==> d.len >= 2
+//@   requires [tail-consistent] d.tail == nil || dqOK(d, d.tail)
+//@   modifies $PLINKS
+//@   ensures [C05:moved-to-the-tail] d.tail == n && nx(d, n) == nil && d.len == pre(d.len) && (pre(d.tail) != n ==> pv(d, n) == pre(d.tail) && nx(d, pre(d.tail)) == n)
+//@   ensures [C05:the-gap-is-closed] pre(d.tail) != n ==> pv(d, pre(nx(d, n))) == pre(pv(d, n)) && (pre(pv(d, n)) == nil || nx(d, pre(pv(d, n))) == pre(nx(d, n)))
+//@   ensures [C04:head-follows-when-the-first-node-moves] pre(d.tail) != n ==> (pre(d.head) == n ==> d.head == pre(nx(d, n))) && (pre(d.head) != n ==> d.head == pre(d.head))
+//@   ensures [C05:list-stays-well-formed] endsOK(d) && dqOK(d, n) && inThis(d, n)
+//@   ensures [C05:every-other-node-stays-consistently-linked] mstar != n && pre(dqOK(d, mstar)) ==> dqOK(d, mstar)
+
+//@ func pUpdateNode : C04 C05 C07
+//@   bodies
+//@   var mstar node.Node[K, V]
+//@   requires $PPRE && old != nil && n != old && unlinked(d, n) && nbOK(d, old)
+//@   requires [linked-here-or-not-at-all] unlinked(d, old) || inThis(d, old)
+//@   modifies $PLINKS
+//@   ensures [C05:the-new-node-takes-the-place-of-the-old-one] pre(inThis(d, old)) ==> sameLinks(d, n, pre(nx(d, old)), pre(pv(d, old))) && (pre(nx(d, old)) == nil || pv(d, pre(nx(d, old))) == n) && (pre(pv(d, old)) == nil || nx(d, pre(pv(d, old))) == n) && (pre(d.head) == old ==> d.head == n) && (pre(d.head) != old ==> d.head == pre(d.head)) && (pre(d.tail) == old ==> d.tail == n) && (pre(d.tail) != old ==> d.tail == pre(d.tail))
+//@   ensures [C05:the-old-node-is-unlinked] free(d, old) && d.head != old && d.tail != old && d.len == pre(d.len)
+//@   ensures [C05:an-unlinked-old-node-is-not-replaced] pre(unlinked(d, old)) ==> free(d, n) && d.head == pre(d.head) && d.tail == pre(d.tail)
+//@   ensures [C05:list-stays-well-formed] endsOK(d) && dqOK(d, n)
+//@   ensures [C05:every-other-node-stays-consistently-linked] mstar != n && mstar != old && pre(dqOK(d, mstar)) ==> dqOK(d, mstar)
+
+//@ func pContains : C04 C05 C07
+//@   bodies
+//@   requires ghost_hasSize() && ghost_hasExpLinks() && d != nil && n != nil
+//@   ensures [C05:contains-reads-the-links] result == (pv(d, n) != nil || nx(d, n) != nil || d.head == n)
